@@ -23,6 +23,7 @@ type Env struct {
 	cell func(name string) *Val // source-level locals (loop invariants)
 	fnPkg string
 	seq   *rangeVal
+	visited string // ghost set of keys visited by the enclosing range-over-map loop
 }
 
 func (e *Env) with(name string, v *Val) *Env {
@@ -191,6 +192,13 @@ func (x *exec) ev(e Expr, env *Env, hint types.Type) *Val {
 		return x.mkVal(fmt.Sprintf("(mk-slice %s %s %s %s)", App("s-ref", sl), x.c.IAdd(App("s-off", sl), lo), x.c.ISub(hi, lo), x.c.ISub(App("s-cap", sl), lo)), xv.Typ)
 	case *EUn:
 		switch n.Op {
+		case "*":
+			v := x.ev(n.X, env, nil)
+			p, ok := v.Typ.Underlying().(*types.Pointer)
+			if !ok || v.L == nil {
+				fail("spec: cannot dereference %s", ExprString(n.X))
+			}
+			return x.load(env.st, v.L, p.Elem())
 		case "!":
 			return x.mkVal(Not(x.evalB(n.X, env)), types.Typ[types.Bool])
 		case "-":
@@ -227,7 +235,9 @@ func (x *exec) ev(e Expr, env *Env, hint types.Type) *Val {
 				guards = append(guards, g)
 			}
 		}
+		x.c.NoLet++
 		body := x.evalB(n.Body, ne)
+		x.c.NoLet--
 		var r string
 		if n.Forall {
 			r = fmt.Sprintf("(forall (%s) %s)", strings.Join(binds, " "), Imp(And(guards...), body))
@@ -554,6 +564,28 @@ func (x *exec) evCall(n *ECall, env *Env, hint types.Type) *Val {
 			ne := *env
 			ne.st = env.old
 			return x.ev(n.Args[0], &ne, hint)
+		case "setsum":
+			return x.setSum(n, env)
+		case "$key":
+			// $key(j): j-th key of the ghost iteration sequence of the map being ranged over
+			if env.seq == nil {
+				fail("spec: $key() is only available in invariants of a range-over-map loop")
+			}
+			jv := x.ev(n.Args[0], env, types.Typ[types.Int])
+			return x.mkVal(App(env.seq.seq, x.c.Convert(x.term(jv), jv.Typ, types.Typ[types.Int])), env.seq.m.Key())
+		case "fresh":
+			// fresh(p): p was allocated by the call (not alive before, alive after, non-nil)
+			if env.old == nil {
+				fail("spec: fresh() used where no pre-state exists")
+			}
+			v := x.ev(n.Args[0], env, nil)
+			ref := x.term(v)
+			if isSliceType(v.Typ) {
+				ref = App("s-ref", ref)
+			}
+			a0 := x.h.get(env.old, "alive", "(Array Int Bool)")
+			a1 := x.h.get(env.st, "alive", "(Array Int Bool)")
+			return x.mkVal(And(Not(Eq(ref, "0")), Not(Sel(a0, ref)), Sel(a1, ref)), types.Typ[types.Bool])
 		case "sameArray":
 			a, b := x.ev(n.Args[0], env, nil), x.ev(n.Args[1], env, nil)
 			return x.mkVal(Eq(App("s-ref", x.term(a)), App("s-ref", x.term(b))), types.Typ[types.Bool])
@@ -678,10 +710,9 @@ func (x *exec) callPure(m *types.Func, recv *Val, args []Expr, env *Env) *Val {
 
 // pureApp builds the UF application for a pure function.
 func (x *exec) pureApp(key string, con *Contract, sig *types.Signature, args []*Val, st *State) *Val {
-	if sig.Results().Len() != 1 {
-		fail("pure function %s must have exactly one result", key)
+	if sig.Results().Len() == 0 {
+		fail("pure function %s must have a result", key)
 	}
-	rt := sig.Results().At(0).Type()
 	var sorts, ts []string
 	for _, a := range args {
 		if sl, ok := a.Typ.Underlying().(*types.Slice); ok && !con.Claims["byref"] {
@@ -699,9 +730,21 @@ func (x *exec) pureApp(key string, con *Contract, sig *types.Signature, args []*
 		sorts = append(sorts, "Int")
 		ts = append(ts, x.h.get(st, "gv", "Int"))
 	}
-	x.c.Fun(name, sorts, x.c.SortOf(rt))
 	x.pureFns[name] = true
-	return x.mkVal(App(name, ts...), rt)
+	if sig.Results().Len() == 1 {
+		rt := sig.Results().At(0).Type()
+		x.c.Fun(name, sorts, x.c.SortOf(rt))
+		return x.mkVal(App(name, ts...), rt)
+	}
+	// several results: one uninterpreted function per result
+	out := &Val{Typ: sig.Results()}
+	for i := 0; i < sig.Results().Len(); i++ {
+		rt := sig.Results().At(i).Type()
+		fn := fmt.Sprintf("%s!r%d", name, i)
+		x.c.Fun(fn, sorts, x.c.SortOf(rt))
+		out.Tup = append(out.Tup, x.mkVal(App(fn, ts...), rt))
+	}
+	return out
 }
 
 func funcKey(m *types.Func) string {
@@ -795,7 +838,9 @@ func (x *exec) compileSpec(sf *Contract, env *Env) *specFn {
 			vars[p] = x.mkVal("sp!"+p, f.ptypes[i])
 		}
 		ne := &Env{x: x, vars: vars, st: st, pkg: tp, fnPkg: sf.PkgPath}
+		x.c.NoLet++
 		v := x.ev(sf.SpecBody, ne, f.rt)
+		x.c.NoLet--
 		if x.c.SortOf(v.Typ) != x.c.SortOf(f.rt) {
 			fail("spec function %s: body has type %s, want %s", sf.Key, v.Typ, f.rt)
 		}
